@@ -16,7 +16,7 @@ EXTRACT = ["C10"]
 BINS = ["c10"]
 NEEDS_CICADA = True
 ALLOWED_AXIOMS = []
-PINNED = ["C10_scan", "C10_full", "C10_refuted", "C10_partial", "C10_double_quoted", "C10_gate_whole_word", "C10_refs_before_cmdsub", "C10_line", "C10_index_buffer", "C10_single_quoted", "C10_do_expansion_inert",
+PINNED = ["C10_scan", "C10_full", "C10_refuted", "C10_partial", "C10_double_quoted", "C10_gate_whole_word", "C10_refs_before_cmdsub", "C10_status_is_last_executed", "C10_line", "C10_index_buffer", "C10_single_quoted", "C10_do_expansion_inert",
           "C10_values_not_rescanned"]
 TRUSTED = [
     "Coq 8.16.1 kernel (coqc; coqchk in thorough); vm_compute only in concrete witnesses / non-vacuity examples",
@@ -410,6 +410,62 @@ def run(ctx, res):
         with ThreadPoolExecutor(max_workers=C.NCPU) as ex:
             outs = list(ex.map(one, enumerate(l2)))
         res.count("L2_cicada_argv", len(l2))
+        # ---------------------------------------------------- L2s: what $? reads INSIDE a line
+        # segments `hp @o,x<N> <word with $?>` joined by ; && || : every executed segment must see the status of
+        # the segment executed just before it (reference semantics = Model/StatusThread.v, C10_status_is_last_executed),
+        # through -c, as a script, and sourced.
+        forms = ["$?", "${?}", '"$?"', "s$?e", '"<${?}>"', "$?$?"]
+        progs = []
+        for k in (2, 3):
+            for ops in itertools.product([";", "&&", "||"], repeat=k - 1):
+                progs.append([((";" if j == 0 else ops[j - 1]), rng.choice([0, 1, 2, 3, 7, 42, 127]), rng.choice(forms)) for j in range(k)])
+        for _ in range(60 if ctx.thorough else 18):
+            k = rng.randint(4, 6)
+            progs.append([((";" if j == 0 else rng.choice([";", "&&", "||"])), rng.choice([0, 0, 1, 2, 3, 7, 42, 127, 255]), rng.choice(forms))
+                          for j in range(k)])
+
+        def status_ref(prog):
+            """(expected stdout, final status): prev = sh.previous_status (0 in a fresh shell)"""
+            prev, out = 0, []
+            for j, (op, n, form) in enumerate(prog):
+                if j == 0 or op == ";" or (op == "&&" and prev == 0) or (op == "||" and prev != 0):
+                    out.append(form.replace('"', "").replace("${?}", str(prev)).replace("$?", str(prev)))
+                    prev = n
+            return "".join(x + "\n" for x in out), prev
+
+        def render_status(prog):
+            return "".join(("" if j == 0 else " %s " % op) + "%s @o,x%d %s" % (hp, n, form) for j, (op, n, form) in enumerate(prog))
+
+        jobs = [(pi, mode) for pi in range(len(progs)) for mode in ("c", "script", "source")]
+
+        def one_s(job):
+            pi, mode = job
+            d = tempfile.mkdtemp(prefix="l2st_", dir=work)
+            line = render_status(progs[pi])
+            env = {"PATH": "/usr/bin:/bin", "HOME": d, "XDG_CONFIG_HOME": d}
+            if mode == "c":
+                cmd = [ctx.cicada, "-c", line]
+            else:
+                sp = os.path.join(d, "s.sh")
+                open(sp, "w").write(line + "\n")
+                cmd = [ctx.cicada, sp] if mode == "script" else [ctx.cicada, "-c", "source %s" % sp]
+            try:
+                pr = subprocess.run(cmd, cwd=d, env=env, stdin=subprocess.DEVNULL, stdout=subprocess.PIPE,
+                                    stderr=subprocess.PIPE, timeout=15)
+                return pr.stdout.decode("utf-8", "replace"), pr.returncode
+            except subprocess.TimeoutExpired:
+                return "HANG", None
+
+        with ThreadPoolExecutor(max_workers=C.NCPU) as ex:
+            outs_s = list(ex.map(one_s, jobs))
+        res.count("L2s_status_inside_a_line", len(jobs))
+        for (pi, mode), (out, rc) in zip(jobs, outs_s):
+            want, fin = status_ref(progs[pi])
+            res.nontrivial("l2s:%r" % (progs[pi],))
+            if out != want or (mode == "c" and rc != fin):
+                violate(kind="oracle", layer="L2s", entry=mode, input=render_status(progs[pi]).replace(hp, "hp"),
+                        expected={"stdout": want, "status": fin}, observed={"stdout": out, "status": rc}, failing_input=True,
+                        note="$? inside a line must be the status of the pipeline executed just before")
         # references next to a command substitution (the gate must let such words through)
         for arg, want in [("$A/$(/bin/echo sub)", "va/sub"), ('"$A and $(/bin/echo sub)"', "va and sub"),
                           ("${A}$(/bin/echo sub)", "vasub"), ("$(/bin/echo $A)", "va"), ("p$A`/bin/echo sub`", "pvasub"),
